@@ -118,7 +118,7 @@ def _start_guard(spec):
     if _GUARD["started"]:
         return
     _GUARD["started"] = True
-    max_rss = int(os.environ.get("VERIF_SHARD_MAX_RSS_MB", "12000")) * 1024 * 1024
+    max_rss = int(os.environ.get("VERIF_SHARD_MAX_RSS_MB", "3500")) * 1024 * 1024
     # the quick tier's shards take seconds; one that is still running after 20 minutes is not going
     # to finish (thorough shards may legitimately run for an hour)
     max_wall = float(os.environ.get("VERIF_SHARD_MAX_WALL_S", "1200" if _GUARD.get("tier") == "quick" else "14400"))
